@@ -191,6 +191,8 @@ class Space:
 
     def real(self, name, lo=None, hi=None, lo_open=False, hi_open=False):
         if self.mode == "native":
+            if name not in self.assignment:      # declared after the failing obligation: unconstrained
+                return float(lo if lo is not None else (hi if hi is not None else 0))
             return float(Fraction(self.assignment[name]))
         t = z3.Real(name)
         self.inputs[name] = t
@@ -203,6 +205,8 @@ class Space:
 
     def int(self, name, lo=None, hi=None):
         if self.mode == "native":
+            if name not in self.assignment:
+                return int(lo if lo is not None else (hi if hi is not None else 0))
             return int(Fraction(self.assignment[name]))
         t = z3.Int(name)
         self.inputs[name] = t
@@ -215,21 +219,48 @@ class Space:
 
     def bool(self, name):
         if self.mode == "native":
-            v = self.assignment[name]
+            v = self.assignment.get(name, False)
             return v in (True, "True", "true", 1, "1")
         t = z3.Bool(name)
         self.inputs[name] = t
         return SymBool(t)
 
+    def free_decision(self):
+        """a decision both of whose sides are feasible by construction (fresh,
+        otherwise unconstrained hole): no solver call needed"""
+        k = len(self.trace)
+        if k < len(self.prefix):
+            v, pend = self.prefix[k]
+            self.trace.append((v, pend))
+            return v
+        self.trace.append((True, True))
+        return True
+
     def choice(self, name, n):
-        """A concrete index in range(n), case-split by the solver."""
+        """A concrete index in range(n): a fresh hole, case-split exhaustively."""
         if self.mode == "native":
+            if name not in self.assignment:
+                return 0
             return int(Fraction(self.assignment[name]))
-        return int(self.int(name, 0, n - 1))
+        v = n - 1
+        for i in range(n - 1):
+            if self.free_decision():
+                v = i
+                break
+        t = z3.Int(name)
+        self.inputs[name] = t
+        self.solver.add(t == v)
+        return v
 
     def flag(self, name):
-        """A concrete Boolean, case-split by the solver."""
-        return bool(self.bool(name))
+        """A concrete Boolean hole, case-split exhaustively."""
+        if self.mode == "native":
+            return self.bool(name)
+        v = self.free_decision()
+        t = z3.Bool(name)
+        self.inputs[name] = t
+        self.solver.add(t == v)
+        return v
 
     # ----------------------------------------------------------- assignments
     def assignment_from(self, model):
@@ -314,12 +345,22 @@ def as_z3_bool(c):
     raise TypeError("not a condition: %r" % (c,))
 
 
+_rat_cache = {}
+
+
 def rat(x):
     """exact z3 Real constant for a Python number"""
-    f = Fraction(x)
-    if f.denominator == 1:
-        return z3.RealVal(f.numerator)
-    return z3.Q(f.numerator, f.denominator)
+    key = (type(x), x)
+    r = _rat_cache.get(key)
+    if r is None:
+        f = Fraction(x)
+        if f.denominator == 1:
+            r = z3.RealVal(f.numerator)
+        else:
+            r = z3.Q(f.numerator, f.denominator)
+        if len(_rat_cache) < 100000:
+            _rat_cache[key] = r
+    return r
 
 
 def to_real(x):
@@ -329,9 +370,9 @@ def to_real(x):
     if tx is SymInt:
         return z3.ToReal(x.t)
     if tx is bool:
-        return z3.RealVal(int(x))
+        return rat(int(x))
     if tx is int:
-        return z3.RealVal(x)
+        return rat(x)
     if tx is float:
         if x != x or x in (float("inf"), float("-inf")):
             raise ValueError("non-finite float in exact-real mode")
@@ -539,6 +580,9 @@ class SymReal(SymNum):
             rr = r
         half = z3.Q(1, 2 * 10 ** (nd or 0))
         sp.solver.add(rr - y <= half, y - rr <= half)
+        # integers are fixed points of round(., nd) and the function is monotone
+        for anchor in (0, 1):
+            sp.solver.add(z3.Implies(y <= anchor, rr <= anchor), z3.Implies(y >= anchor, rr >= anchor))
         for (y0, r0, nd0) in sp.rounds:
             if nd0 == nd:
                 r0r = z3.ToReal(r0) if nd is None else r0
